@@ -60,14 +60,33 @@ func gRace(r race3) string {
 
 // related: do the types (pool indices) contain a relation between two distinct types?
 func related(types []int) bool {
+	in := map[int]bool{}
+	for _, t := range types {
+		in[t] = true
+	}
 	for _, t := range types {
 		for _, r := range Pool[t].Rels {
-			if r.To != t {
+			if r.To != t && in[r.To] {
 				return true
 			}
 		}
 	}
 	return false
+}
+
+// coldTypes: relation closure of the types used, minus what the warm-up already parsed.
+func coldTypes(used, warm []int) []int {
+	w := map[int]bool{}
+	for _, t := range closureOf(warm) {
+		w[t] = true
+	}
+	var out []int
+	for _, t := range closureOf(used) {
+		if !w[t] {
+			out = append(out, t)
+		}
+	}
+	return out
 }
 
 func isWhereSwap(p RacePair) bool {
@@ -89,6 +108,7 @@ type caseData struct {
 	conc, serial       [][]res3
 	finalC, finalS     int64
 	used, builds       []int
+	prewarm            []int
 	bad                int64
 	races              []race3
 }
@@ -98,7 +118,7 @@ func (c caseData) term(part int) string {
 		gCfg(c.cfg), gProgs(c.progs), lib.Bool(c.warm), lib.Bool(c.searched), gNats(c.sched),
 		lib.ListOf(c.events, gEvent), lib.ListOf(c.closed, lib.Bool),
 		gResults(c.conc), gResults(c.serial), lib.Z(c.finalC), lib.Z(c.finalS),
-		gNats(c.used), gNats(c.builds), lib.Z(c.bad), lib.ListOf(c.races, gRace))
+		gNats(c.used), gNats(c.prewarm), gNats(c.builds), lib.Z(c.bad), lib.ListOf(c.races, gRace))
 }
 
 func emit(out *lib.Out, spec RoundSpec, obs RoundObs) {
@@ -225,7 +245,13 @@ func emit(out *lib.Out, spec RoundSpec, obs RoundObs) {
 		for _, t := range c.used {
 			usedPool = append(usedPool, d.Types[t])
 		}
-		if d.Cold && d.G >= 2 && related(closureOf(usedPool)) {
+		for _, t := range d.WarmTypes {
+			c.prewarm = append(c.prewarm, denseIdx[t])
+		}
+		// the getOrParse hazard needs two DISTINCT related types that are both cold: a relation whose
+		// target was used (hence parsed and closed) before the goroutines started cannot hand out
+		// an unfinished schema
+		if d.Cold && d.G >= 2 && related(coldTypes(usedPool, d.WarmTypes)) {
 			sig1 = sigCold
 		}
 		if d.OrBase {
